@@ -320,6 +320,10 @@ func (g *Gen) selField(v Val, name string, env *Env) Val {
 				return g.envLoad(env, Ptr{Prefix: p.Prefix + "." + name, Idx: p.Idx, T: st.Field(i).Type()})
 			}
 		}
+		if gt, ok := g.ghostFieldType(env, pt.Elem(), name); ok {
+			// ghost field: specification-only state attached to objects of this type
+			return g.envLoad(env, Ptr{Prefix: p.Prefix + ".ghost:" + name, Idx: p.Idx, T: gt})
+		}
 		panic(contractErr("no field %s in %s", name, pt.Elem()))
 	}
 	if st, ok := t.Underlying().(*types.Struct); ok && v.K == kStruct {
@@ -331,6 +335,20 @@ func (g *Gen) selField(v Val, name string, env *Env) Val {
 		panic(contractErr("no field %s in %s", name, t))
 	}
 	panic(contractErr("cannot select .%s on %s", name, t))
+}
+
+// ghostFieldType: type of a ghost field declared (`ghostfield pkg.Type name type`) for struct type t.
+func (g *Gen) ghostFieldType(env *Env, t types.Type, name string) (types.Type, bool) {
+	if g.pc == nil {
+		return nil, false
+	}
+	tn := g.typeName(t)
+	for _, gf := range g.pc.GhostFields {
+		if gf.Name == name && (gf.Struct == tn || lastPkgElem(gf.Struct) == tn) {
+			return g.resolveType(env, gf.Type), true
+		}
+	}
+	return nil, false
 }
 
 func (g *Gen) toIdx(v Val) string {
